@@ -1,5 +1,5 @@
 (* Pinned statements for C16: a changed statement or a new axiom fails the check. *)
-From SwimV Require Import Model.MsgPack Proofs.MsgPackProofs Props.C16.
+From SwimV Require Import Model.MsgPack Proofs.MsgPackProofs Proofs.MsgPackRecordProofs Props.C16.
 Open Scope N_scope.
 Check (C16_scalar_roundtrip) : (forall v rest, wf v -> dec_scalar (enc_scalar v ++ rest) = MOk v rest).
 Print Assumptions C16_scalar_roundtrip.
@@ -7,3 +7,7 @@ Check (C16_truncated_is_incomplete) : (forall v p q, wf v -> p ++ q = enc_scalar
 Print Assumptions C16_truncated_is_incomplete.
 Check (C16_encoding_injective) : (forall a b, wf a -> wf b -> enc_scalar a = enc_scalar b -> a = b).
 Print Assumptions C16_encoding_injective.
+Check (C16_record_roundtrip) : (forall v, WFV v -> forall fuel rest, (depth v <= fuel)%nat -> dec fuel (enc v ++ rest) = VOk v rest).
+Print Assumptions C16_record_roundtrip.
+Check (C16_record_encoding_injective) : (forall a b, WFV a -> WFV b -> enc a = enc b -> a = b).
+Print Assumptions C16_record_encoding_injective.
